@@ -331,18 +331,22 @@ def check_farfield(desc):
     V = np.asarray(g.vertices)
     cen = V.mean(axis=1)
     D = float(np.linalg.norm(g.bounding_box[:, 1] - g.bounding_box[:, 0]))
-    R0 = float(np.max(np.linalg.norm(V, axis=0)))  # distance of the surface from the origin (the far field is taken w.r.t. the origin)
+    # The limit is taken about the grid's centroid c (u(c + r x) r e^{-ikr} -> e^{ik x.c} F(x)): about the origin the phase term
+    # |k| |y|^2 / r of a far-away, short-wavelength grid would need radii at which k r eps already exceeds the tolerance.
+    R0 = float(np.max(np.linalg.norm(V - cen[:, None], axis=0)))
     r1 = max(2e3 * R0, 1e3 * abs(k) * R0 * R0)
     if np.imag(k) != 0:
         r1 = min(r1, 250.0 / abs(np.imag(k)))
     lim = []
     for r in (r1, 2 * r1):
-        P = og.potential_operator(fam, op, space, np.asfortranarray(r * X), k, parameters=par).evaluate(gf)
+        P = og.potential_operator(fam, op, space, np.asfortranarray(cen[:, None] + r * X), k, parameters=par).evaluate(gf)
         lim.append(r * np.exp(-1j * k * r) * P)
     extr = 2 * lim[1] - lim[0]
-    e_lim = og.relerr(F, extr)
-    # remainder after one Richardson step: squares of the amplitude term R0/r and of the phase term |k| R0^2 / r
-    tol_lim = 50 * ((R0 / r1) ** 2 + (abs(k) * R0 * R0 / r1) ** 2) + 1e-7
+    Fc = F * np.exp(1j * k * (X.T @ cen))[None, :]
+    e_lim = og.relerr(Fc, extr)
+    # remainder after one Richardson step: squares of the amplitude term R0/r and of the phase term |k| R0^2 / r; plus the
+    # rounding of the distances |c + r x - y| in the phase (|k| (|c| + r) eps)
+    tol_lim = 50 * ((R0 / r1) ** 2 + (abs(k) * R0 * R0 / r1) ** 2) + 1e-7 + 50 * abs(k) * (float(np.linalg.norm(cen)) + 2 * r1) * 2.3e-16
     if e_lim > tol_lim:
         _fail(f"farfield_limit/{fam}_{op}/{cls}", f"far field differs from lim r e^{{-ikr}} u(r x) by {e_lim:.2e} (tolerance {tol_lim:.1e}), k={k}")
     # translation law
